@@ -3,9 +3,45 @@ import ledgercheck
 import ledgerlib as L
 
 
+def restore_stage(V):
+    """the 'after a restore from seed' clause: fresh wallets restored by scanning (c16 harness);
+    the next child index must lie beyond every path found on chain (C16_restore_child_index_beyond)"""
+    import json, os
+    from concurrent.futures import ThreadPoolExecutor
+    import vlib
+    (binp,) = vlib.build_harness(["c16"])
+    wd = vlib.workdir("C15")
+
+    def one(sh):
+        out = os.path.join(wd, "c16_%d.jsonl" % sh)
+        rc, log = vlib.sh([binp, "--out", out, "--n", "1", "--shard", str(sh)], timeout=3000)
+        if rc != 0:
+            raise vlib.Infra("c16 harness failed: " + log[-2000:])
+        return [json.loads(l) for l in open(out)]
+    rows = []
+    with ThreadPoolExecutor(max_workers=8) as ex:
+        for r in ex.map(one, range(8)):
+            rows.extend(r)
+    n, bad = 0, 0
+    for r in rows:
+        if r["kind"] != "restore" or r["rc"] != [0]:
+            continue
+        n += 1
+        child = {c[0]: c[1] for c in r["restored"]["child"]}
+        for d in r["chain"]:
+            if child.get(d["key"][0], 0) <= d["key"][1]:
+                bad += 1
+                V.violation({"property": "C15", "kind": "oracle",
+                             "what": "after a restore from seed the next child index %s of account %d is not beyond path %s found on chain"
+                                     % (child.get(d["key"][0], 0), d["key"][0], d["key"]), "row": r})
+                break
+    return {"restores_checked": n, "restores_with_reusable_path": bad}
+
+
 def run(tier, replay):
     return ledgercheck.run_ledger_check(
         "C15", tier, replay, "c03", [L.oracle_c15],
         "Oracle: across each history (with wallet reopen in between) every (account, child) path ever seen in the output table is "
         "bound to one output identity, also after that record was deleted; coinbase candidate replacement excepted; every path lies "
-        "below the next-child counter read back from LMDB.")
+        "below the next-child counter read back from LMDB. Plus: fresh wallets restored from the recovery phrase by scanning "
+        "(c16 harness): next child index beyond every path found on chain.", extra_stage=restore_stage)
